@@ -3,3 +3,4 @@ import ArimProofs.C13
 import ArimProofs.C15
 import ArimProofs.C20
 import ArimProofs.C18
+import ArimProofs.C14
